@@ -2,8 +2,8 @@
 //!
 //! Kani executes atomics sequentially, so the *schedule* is moved into this model: at every
 //! atomic step of the reader under test (load, compare-exchange) another reader may run first
-//! and publish its own freshly allocated decoding (the `INTERFERE` hook, installed by the
-//! harness, is invoked under a nondeterministic choice), and `compare_exchange_weak` may fail
+//! and publish its own freshly allocated decoding (the reader selected by `INTERFERE_KIND`
+//! is invoked under a nondeterministic choice), and `compare_exchange_weak` may fail
 //! spuriously. For two readers every interleaving at atomic-step granularity is one of "the
 //! other publish lands before my load / between my load and my CAS / after my CAS"; the choices
 //! enumerate exactly these. The model is sequentially consistent (memory ordering adequacy is
@@ -14,7 +14,11 @@
 use core::cell::UnsafeCell;
 use core::sync::atomic::Ordering;
 
-pub(crate) static mut INTERFERE: Option<unsafe fn(*mut *mut u8)> = None;
+/// which "other reader" runs at an atomic step: 0 = none, 1 = value.rs reader with reference ledger,
+/// 2 = value.rs reader without ledger, 3 = owned.rs reader, 4 = owned.rs reader at one chosen step.
+/// (Direct calls instead of a function pointer: CBMC's function-pointer removal dispatches to every
+/// address-taken function of the same signature, which made unrelated drop glue reachable.)
+pub(crate) static mut INTERFERE_KIND: u8 = 0;
 pub(crate) static mut ATOMIC_STEPS: u8 = 0;
 pub(crate) static mut SPURIOUS: u8 = 0;
 
@@ -34,9 +38,13 @@ impl<T> AtomicPtr<T> {
     fn step(&self) {
         unsafe {
             ATOMIC_STEPS = ATOMIC_STEPS.wrapping_add(1);
-            if let Some(f) = INTERFERE {
-                if kani::any() {
-                    f(self.p.get() as *mut *mut u8);
+            if INTERFERE_KIND != 0 && kani::any() {
+                let cell = self.p.get() as *mut *mut u8;
+                match INTERFERE_KIND {
+                    1 => crate::lazyvalue::value::verif_kani_lazy_value::other_reader_publishes(cell),
+                    2 => crate::lazyvalue::value::verif_kani_lazy_value::other_reader_publishes_plain(cell),
+                    3 => crate::lazyvalue::owned::verif_kani_lazy_owned::other_reader_publishes(cell),
+                    _ => crate::lazyvalue::owned::verif_kani_lazy_owned::other_publishes_at_step(cell),
                 }
             }
         }
